@@ -17,8 +17,10 @@ OwnCellsAll == {[m |-> "own", msg |-> r.id, holder |-> h, signer |-> s, amt |-> 
                   r \in OwnerRows, h \in Holders, s \in Signers, a \in {"na", "zero", "small", "whole", "over"}, sc \in {"home", "alt", "decoy"}}
 OwnCells  == {c \in OwnCellsAll : c.amt \in AmountsOf(Row(c.msg)) /\ c.scope \in ScopesOf(Row(c.msg))}
 (* des = the contract the statement designates for the variant (tells the harness which cell is the non-vacuity reference) *)
-PrivCells == {[m |-> "priv", v |-> x.v, chain |-> c, sender |-> s, des |-> Designated(x.cls)] : x \in Variants, c \in Chains, s \in Senders}
-KillCells == {[m |-> "kill", sender |-> s] : s \in KillSenders}
+PrivCellsAll == {[m |-> "priv", v |-> x.v, chain |-> c, sender |-> s, des |-> Designated(x.cls), pay |-> p] :
+                   x \in Variants, c \in Chains, s \in Senders, p \in {"na", "caller", "designated", "third"}}
+PrivCells == {c \in PrivCellsAll : c.pay \in PaysOf(c.v)}
+KillCells == {[m |-> "kill", adm |-> a, sender |-> s] : a \in AdminStates, s \in KillSenders}
 
 ExecRows    == {r \in Rows : r.exec}
 ProdsOf(r)  == IF r.pk = "vault" /\ r.px = IO THEN {"oracle", "fixed"} ELSE {"na"}
@@ -52,7 +54,7 @@ DoOwn(c) == \E env \in BOOLEAN :
             /\ cell' = c /\ res' = [ok |-> o.ok] /\ st' = [st EXCEPT !.pos = o.pos]
 DoPriv(c) == LET ok == ImplPrivOk(c.v, c.chain, c.sender) IN
             /\ cell' = c /\ res' = [ok |-> ok] /\ st' = IF ok THEN [st EXCEPT !.ver = st.ver + 1] ELSE st
-DoKill(c) == LET ok == ImplKillOk(c.sender) IN
+DoKill(c) == LET ok == ImplKillOk(c.adm, c.sender) IN
             /\ cell' = c /\ res' = [ok |-> ok] /\ st' = IF ok THEN [st EXCEPT !.ver = st.ver + 1] ELSE st
 DoCtl(c) == LET o == Step(st, Row(c.h), c.prod, CtlOf(c)) IN
             /\ cell' = c /\ res' = [ok |-> o.ok] /\ st' = o.st
@@ -86,7 +88,7 @@ RejectedChangesNothingM == ~res.ok => st.ver = 0 /\ st.pos.ver = 0
 DesignC12 ==
   /\ cell.m = "own"  => OwnerOnly(Row(cell.msg), cell.holder, cell.signer, res.ok) /\ (cell.signer # cell.holder => st.pos = Pos0(cell.holder))
   /\ cell.m = "priv" => PrivilegedOnlyDesignated(cell.chain, cell.sender, res.ok) /\ PrivilegedRole(cell.v, cell.chain, cell.sender, res.ok)
-  /\ cell.m = "kill" => KillOnlyAdmin(cell.sender, res.ok)
+  /\ cell.m = "kill" => KillOnlyAdmin(cell.adm, cell.sender, res.ok)
 DesignC14 ==
   /\ cell.m = "ctl" => (MustReject(Row(cell.h), cell.prod, CtlOf(cell)) => ~res.ok)
   /\ cell.m = "auc"  => (AucPriceReq(cell.hook, cell.off) => ~res.ok)
